@@ -15,7 +15,7 @@ tvars == <<vars, l>>
 
 IsEvent(e) == l <= Len(Trace) /\ Trace[l].ev = e /\ l' = l + 1
 
-Empty == [tree |-> Nil, ctree |-> Nil, ovl |-> <<>>]
+Empty == [tree |-> Nil, ctree |-> Nil, ovl |-> <<>>, fork |-> <<>>]
 
 TraceInit == l = 1 /\ st = Empty /\ hist = <<>>
 
@@ -32,6 +32,9 @@ TrOp ==
        IN  /\ "panic" \notin DOMAIN e
            /\ st' = s2
            /\ ObsView(e) = Pairs(Top(s2))
+           \* the other object of an Overlay.Copy, while alive, reads as its own map
+           /\ ("fview" \in DOMAIN e) = (s2.fork # <<>>)
+           /\ ("fview" \in DOMAIN e => [i \in DOMAIN e.fview |-> <<e.fview[i][1], e.fview[i][2]>>] = Pairs(s2.fork.m))
            /\ (e.a = "remx" => (e.found = Ret(st, op).found /\ (e.found => e.prev = Ret(st, op).v)))
     /\ UNCHANGED hist
 
